@@ -234,7 +234,14 @@ class ArrList:
             k += 1
 
     def concat(self, o):
-        raise EngineError("ArrList +")
+        """self + <python list of known length>: the new list is a z3 Store chain behind the last element (a new array
+        term; the operands are not changed)"""
+        if isinstance(o, list):
+            arr = self.arr
+            for k, x in enumerate(o):
+                arr = z3.Store(arr, _z(self.off + self.len + k), _z(x))
+            return ArrList(arr, self.len + len(o), self.off)
+        raise EngineError("ArrList + %r" % type(o))
 
     def rconcat(self, o):
         raise EngineError("ArrList +")
@@ -245,6 +252,10 @@ class ArrList:
                 raise EngineError("append on an ArrList view")
             self.arr = z3.Store(self.arr, _z(self.len), _z(args[0]))
             self.len = self.len + 1
+            return None
+        if name == "extend" and getattr(self, "on_extend", None) is not None and isinstance(args[0], ArrList):
+            # ghost concatenation: the lemma's hook introduces the new array with its two defining quantified facts
+            self.on_extend(self, args[0])
             return None
         raise EngineError("ArrList.%s" % name)
 
